@@ -7,7 +7,9 @@ package main
 import (
 	"bytes"
 	"context"
+	"encoding/hex"
 	"encoding/json"
+	mrand "math/rand"
 	"fmt"
 	"go/ast"
 	"go/parser"
@@ -154,9 +156,41 @@ func (r *replayer) run(rr *replayRec, path string) (bool, string) {
 	var ok bool
 	var out string
 	for a := 0; a < attempts && !ok; a++ {
-		ok, out = r.runOnce(rr, path, bin)
+		p := path
+		if a >= 2 {
+			// the solver fixed hash outputs (uninterpreted functions) that the native run
+			// cannot be forced to produce; a secret/seed is only ever used through such
+			// hashes, so any other secret is an equally valid member of the counterexample's
+			// input class: retry with fresh random secrets
+			if alt := r.randomizeSecrets(rr, a); alt != "" {
+				p = alt
+			}
+		}
+		ok, out = r.runOnce(rr, p, bin)
 	}
 	return ok, out
+}
+
+func (r *replayer) randomizeSecrets(rr *replayRec, salt int) string {
+	changed := false
+	cp := *rr
+	cp.Vector = append([]ndValue{}, rr.Vector...)
+	rnd := mrand.New(mrand.NewSource(int64(salt) * 7919))
+	for i, v := range cp.Vector {
+		if v.Kind == "bytes" && (strings.Contains(v.Label, "secret") || strings.Contains(v.Label, "seed")) {
+			b := make([]byte, len(v.Hex)/2)
+			rnd.Read(b)
+			cp.Vector[i].Hex = hex.EncodeToString(b)
+			changed = true
+		}
+	}
+	if !changed {
+		return ""
+	}
+	p := filepath.Join(r.m.root, fmt.Sprintf("alt-%d.json", salt))
+	b, _ := json.MarshalIndent(&cp, "", " ")
+	os.WriteFile(p, b, 0o644)
+	return p
 }
 
 func (r *replayer) runOnce(rr *replayRec, path, bin string) (bool, string) {
